@@ -6,6 +6,7 @@ import (
 	"fmt"
 	"testing"
 
+	"github.com/gebn/bmc"
 	"github.com/gebn/bmc/pkg/ipmi"
 	"pgregory.net/rapid"
 
@@ -339,8 +340,97 @@ func TestRandomHistories(t *testing.T) {
 	})
 }
 
+// TestHighLevelMethods: the convenience methods of a connection / session (which
+// may take their own route to the transport) behind a stray reply to another
+// command: a nil error must rest on a reply to the method's own command that
+// carries the normal completion code.
+func TestHighLevelMethods(t *testing.T) {
+	type method struct {
+		name       string
+		netfn, cmd byte
+		call       func(ctx context.Context, s bmc.Session) error
+	}
+	methods := []method{
+		{"GetSystemGUID", ref.NetFnApp, ref.CmdGetSystemGUID, func(ctx context.Context, s bmc.Session) error { _, err := s.GetSystemGUID(ctx); return err }},
+		{"GetChannelAuthenticationCapabilities", ref.NetFnApp, ref.CmdGetChanAuthCap, func(ctx context.Context, s bmc.Session) error {
+			_, err := s.GetChannelAuthenticationCapabilities(ctx, &ipmi.GetChannelAuthenticationCapabilitiesReq{Channel: ipmi.ChannelPresentInterface, MaxPrivilegeLevel: ipmi.PrivilegeLevelUser})
+			return err
+		}},
+		{"GetSessionInfo", ref.NetFnApp, ref.CmdGetSessionInfo, func(ctx context.Context, s bmc.Session) error {
+			_, err := s.GetSessionInfo(ctx, &ipmi.GetSessionInfoReq{Index: ipmi.SessionIndexCurrent})
+			return err
+		}},
+		{"GetDeviceID", ref.NetFnApp, ref.CmdGetDeviceID, func(ctx context.Context, s bmc.Session) error { _, err := s.GetDeviceID(ctx); return err }},
+		{"GetChassisStatus", ref.NetFnChassis, ref.CmdChassisStatus, func(ctx context.Context, s bmc.Session) error { _, err := s.GetChassisStatus(ctx); return err }},
+		{"ChassisControl", ref.NetFnChassis, ref.CmdChassisControl, func(ctx context.Context, s bmc.Session) error { return s.ChassisControl(ctx, ipmi.ChassisControlPowerCycle) }},
+		{"GetSDRRepositoryInfo", ref.NetFnStorage, ref.CmdSDRRepoInfo, func(ctx context.Context, s bmc.Session) error { _, err := s.GetSDRRepositoryInfo(ctx); return err }},
+		{"ReserveSDRRepository", ref.NetFnStorage, ref.CmdReserveSDR, func(ctx context.Context, s bmc.Session) error { _, err := s.ReserveSDRRepository(ctx); return err }},
+		{"GetSensorReading", ref.NetFnSensor, ref.CmdSensorReading, func(ctx context.Context, s bmc.Session) error { _, err := s.GetSensorReading(ctx, 4); return err }},
+		{"GetSessionPrivilegeLevel", ref.NetFnApp, ref.CmdSetSessPriv, func(ctx context.Context, s bmc.Session) error { _, err := s.GetSessionPrivilegeLevel(ctx); return err }},
+		{"SetSessionPrivilegeLevel", ref.NetFnApp, ref.CmdSetSessPriv, func(ctx context.Context, s bmc.Session) error {
+			_, err := s.SetSessionPrivilegeLevel(ctx, ipmi.PrivilegeLevelUser)
+			return err
+		}},
+		{"Close", ref.NetFnApp, ref.CmdCloseSession, func(ctx context.Context, s bmc.Session) error { return s.Close(ctx) }},
+	}
+	suites := hx.Suites12()
+	n := 0
+	for _, m := range methods {
+		for _, strayCC := range []byte{0x00, 0xD4, 0xC1} {
+			for _, refuse := range []bool{false, true} {
+				for _, strays := range []int{1, 2} {
+					n++
+					c := hx.Creds{User: "admin", Password: []byte("pw"), Priv: 4, Suite: suites[(n+int(ev.Seed))%len(suites)], Seed: uint64(ev.Seed)*977 + uint64(n)}
+					w := hx.NewWorldFor(c, true)
+					s, err := w.T.NewV2Session(context.Background(), c.Opts())
+					if err != nil {
+						t.Fatalf("harness: %v", err)
+					}
+					bs := w.BMC.ActiveSession()
+					w.BMC.Data.Sensors = map[uint16]ref.SensorReading{4: {Reading: 9, Scanning: true}}
+					if refuse {
+						// the BMC's own answer to this command is a refusal, so success
+						// can only have come from somewhere else
+						w.BMC.Intercept = func(b *simbmc.BMC, rx *simbmc.Rx) {
+							if rx.Msg != nil && !rx.Msg.IsResponse() && rx.Sess != nil {
+								rx.Replies = []memnet.Out{b.Wrap(rx.Sess, b.ResponseFor(rx.Msg, 0xD4, nil).Bytes())}
+							}
+						}
+					}
+					for k := 0; k < strays; k++ {
+						req := &ref.Msg{RsAddr: 0x20, NetFn: ref.NetFnApp, RqAddr: 0x81, RqSeq: byte(k + 1), Cmd: 0x42}
+						w.Net.Inject(w.BMC.Wrap(bs, w.BMC.ResponseFor(req, strayCC, []byte{1, 4, 0x81, 2, 0, 0, 0, 0, 0}).Bytes()).Data)
+					}
+					delivered := len(w.Net.Delivered)
+					ctx, cancel := w.Ctx(6)
+					err = m.call(ctx, s)
+					cancel()
+					ev.Eval()
+					cs := map[string]any{"method": m.name, "strayCode": strayCC, "bmcRefuses": refuse, "strays": strays, "suite": c.Suite.String()}
+					if err == nil {
+						last := w.Net.Delivered[len(w.Net.Delivered)-1]
+						msg := msgOf(last, bs)
+						if len(w.Net.Delivered) == delivered || msg == nil || msg.NetFn != m.netfn|1 || msg.Cmd != m.cmd || msg.CC != 0 {
+							got := "nothing decodable"
+							if msg != nil {
+								got = fmt.Sprintf("a reply for NetFn %#x cmd %#x with code %#x", msg.NetFn, msg.Cmd, msg.CC)
+							}
+							text := fmt.Sprintf("%s returned a nil error, but the last datagram delivered is %s (want a normal reply for NetFn %#x cmd %#x)", m.name, got, m.netfn|1, m.cmd)
+							ev.Violation("TestHighLevelMethods", cs, text)
+							t.Fatalf("%v: %s", cs, text)
+						}
+					}
+					ev.NonTrivial(fmt.Sprintf("hl|%s|%d|%v|%d", m.name, strayCC, refuse, strays))
+					ev.Label("high-level:" + m.name)
+				}
+			}
+		}
+	}
+	ev.Label("high-level-methods-complete")
+}
+
 func TestCoverage(t *testing.T) {
-	need := []string{"pairs-complete", "neighbour-operations-complete"}
+	need := []string{"pairs-complete", "neighbour-operations-complete", "high-level-methods-complete", "high-level:ChassisControl", "high-level:Close"}
 	for _, f := range faults {
 		need = append(need, "foreign-head:"+f+":inSession=true", "foreign-head:"+f+":inSession=false")
 	}
